@@ -15,6 +15,13 @@ EX = mapcase.EX
 def spellings(rng, case, k):
     single = len(case['sources']) == 1 and case['sources'][0].get('kind', 'csv') == 'csv'
     out = []
+    if any(t.get('sgraphs') for t in case['doc']):
+        # always, for mappings with graph maps on a subject map: the graph maps LEFT on the subject map, written with the conventional prefix labels
+        # (a legacy document binds rml: to the legacy namespace) and in plain Turtle, in the legacy and in the new vocabulary
+        for vocab, ser in (('legacy', 'prefixed'), ('rml', 'prefixed'), ('legacy', 'turtle')):
+            st = mapcase.Style(vocab=vocab, shortcut=True, cls='class', sgraph='subject', split_poms=False, rng=random.Random(7))
+            st.serialisation = ser
+            out.append(st)
     for _ in range(k):
         vocab = rng.choice(['rml', 'legacy'] + (['r2rml'] if single else []))
         st = mapcase.Style(vocab=vocab, shortcut=rng.random() < 0.5, cls=rng.choice(['class', 'pom']), sgraph=rng.choice(['subject', 'pom']),
@@ -87,6 +94,14 @@ def run(ctx, res):
                               'objs': [{'m': mapcase.tm_const_iri(EX + 'o/dataset'), 'lang': None, 'dt': None, 'joins': []},
                                        {'m': {'k': 'const', 'v': 'HR database', 'ck': 'lit', 'tt': ''}, 'lang': None, 'dt': None, 'joins': []}],
                               'graphs': ([mapcase.tm_const_iri(EX + 'g/meta'), mapcase.tm_const_iri(EX + 'g/meta2')] if ctx.rng.random() < 0.3 else [])})
+    # directed: mappings with graph maps on subject maps, N-QUADS (the subject-graph factoring is one of the three the property names)
+    from .c08 import gen_graph_case
+    found, tries = 0, 0
+    while found < ctx.scale(8, 80) and tries < 2000:
+        tries += 1
+        g = gen_graph_case(ctx.rng)
+        if g['cfg'].get('nquads') and any(t.get('sgraphs') for t in g['doc']) and not family.triggers(g):
+            cases.append(g); found += 1
     batch = family.Batch(ctx)
     base = batch.run(cases)
     wd = common.workdir()
